@@ -1253,13 +1253,20 @@ class WCS(GWCSAPIMixin):
         # build the new pipeline and expose the new frame under its name
         # before anything is changed: if either is refused (a transform that
         # is not a model, the name of a read-only property) nothing is changed
+        # the transform that stops being the first one (if any): the bounding
+        # box of the WCS is kept on it
+        displaced = None
         if input_index is None:
+            if output_index == 0:
+                displaced = self._pipeline[0].transform
             pipeline = (self._pipeline[:output_index] +
                         [Step(input_frame_obj, transform)] +
                         self._pipeline[output_index:])
             super(WCS, self).__setattr__(input_name, input_frame_obj)
         else:
             split_step = self._pipeline[input_index]
+            if input_index == 0:
+                displaced = split_step.transform
             pipeline = (self._pipeline[:input_index] +
                         [Step(split_step.frame, transform),
                          Step(output_frame_obj, split_step.transform)] +
@@ -1267,6 +1274,10 @@ class WCS(GWCSAPIMixin):
             super(WCS, self).__setattr__(output_name, output_frame_obj)
         self._pipeline = pipeline
         self._approx_inverse = None
+        if displaced is not None:
+            # the box was the input frame's: it does not go with a transform that
+            # now starts from another frame
+            displaced.bounding_box = None
 
     @property
     def unit(self):
